@@ -286,6 +286,14 @@ func c07CellsFor(s *skeleton, withFixed bool) []c07Cell {
 			if d == u {
 				add(fmt.Sprintf("partial/D%d", d), map[int]string{d: "x := 1\nx, y := 2, 3\nprint(x, y)"}, true)
 				add(fmt.Sprintf("no-new/D%d", d), map[int]string{d: "x, y := 1, 2\nx, y := 3, 4"}, false)
+				// a := list inside a nested block that names a variable of the enclosing block: whatever it does
+				// to x inside, x is still defined behind the block, and the block's own names are not
+				for bk, b := range map[string][2]string{"if": {"if 1 == 1 {\n", "}\n"}, "else": {"if 1 == 2 {\n} else {\n", "}\n"}, "case": {"switch 1 {\ncase 1:\n", "}\n"}, "for": {"for pk9 := 0; pk9 < 1; pk9++ {\n", "}\n"}, "if-in-for": {"for pk9 := 0; pk9 < 1; pk9++ {\nif 1 == 1 {\n", "}\n}\n"}} {
+					add(fmt.Sprintf("partial-in-block/%s/outer-lives-on/D%d", bk, d), map[int]string{d: "x := 1\n" + b[0] + "x, y := 2, 3\nprint(x, y)\n" + b[1] + "print(x)\nx = 4"}, true)
+					add(fmt.Sprintf("partial-in-block/%s/two-outer-names/D%d", bk, d), map[int]string{d: "x := 1\nw := 2\n" + b[0] + "w, y, x := 2, 3, 4\nprint(y)\n" + b[1] + "print(x, w)"}, true)
+					add(fmt.Sprintf("partial-in-block/%s/inner-name-gone/D%d", bk, d), map[int]string{d: "x := 1\n" + b[0] + "x, y := 2, 3\nprint(x, y)\n" + b[1] + "print(y)"}, false)
+					add(fmt.Sprintf("partial-in-block/%s/redefined-after-it/D%d", bk, d), map[int]string{d: "x := 1\n" + b[0] + "x, y := 2, 3\nx, y := 5, 6\n" + b[1]}, false)
+				}
 			}
 		}
 		// a name used inside its own definition (initialiser, loop header, ranged expression): not yet visible there
@@ -371,6 +379,14 @@ func c07CellsFor(s *skeleton, withFixed bool) []c07Cell {
 		{"fall-off/nested-return-then-print", "c := true\nfunc g() int {\n\tif c {\n\t\treturn 1\n\t}\n\tprint(2)\n}\n", false},
 		{"fall-off/ok-return-after-loop", "func g() int {\n\tfor i := 0; i < 1; i++ {\n\t\tprint(i)\n\t}\n\treturn 3\n}\nprint(g())\n", true},
 		{"fall-off/void-ok", "func g() {\n\tprint(1)\n}\n", true},
+		{"fall-off/endless-loop-break-in-if", "c := true\nfunc g() int {\n\tfor {\n\t\tif c {\n\t\t\tbreak\n\t\t}\n\t\treturn 1\n\t}\n}\n", false},
+		{"fall-off/endless-loop-break-in-else-if", "c := true\nfunc g() int {\n\tfor {\n\t\tif c {\n\t\t\treturn 1\n\t\t} else if !c {\n\t\t\tbreak\n\t\t}\n\t}\n}\n", false},
+		{"fall-off/endless-loop-break-in-else", "c := true\nfunc g() int {\n\tfor {\n\t\tif c {\n\t\t\treturn 1\n\t\t} else {\n\t\t\tbreak\n\t\t}\n\t}\n}\n", false},
+		{"fall-off/endless-loop-break-in-second-else-if", "c := true\nn := 1\nfunc g() int {\n\tfor {\n\t\tif c {\n\t\t\treturn 1\n\t\t} else if n == 1 {\n\t\t\treturn 2\n\t\t} else if n == 2 {\n\t\t\tbreak\n\t\t}\n\t}\n}\n", false},
+		{"fall-off/endless-loop-break-in-second-case", "n := 1\nfunc g() int {\n\tfor {\n\t\tswitch n {\n\t\tcase 1:\n\t\t\treturn 1\n\t\tcase 2:\n\t\t\tbreak\n\t\t}\n\t}\n}\n", false},
+		{"fall-off/endless-loop-break-in-default", "n := 1\nfunc g() int {\n\tfor {\n\t\tswitch n {\n\t\tcase 1:\n\t\t\treturn 1\n\t\tdefault:\n\t\t\tbreak\n\t\t}\n\t}\n}\n", false},
+		{"fall-off/endless-loop-break-in-nested-loop-if", "c := true\nfunc g() int {\n\tfor {\n\t\tfor i := 0; i < 2; i++ {\n\t\t}\n\t\tif c {\n\t\t} else if !c {\n\t\t\tif c {\n\t\t\t\tbreak\n\t\t\t}\n\t\t}\n\t}\n}\n", false},
+		{"fall-off/if-else-both-return-then-nothing-after-loop", "c := true\nfunc g() int {\n\tfor i := 0; i < 1; i++ {\n\t\tif c {\n\t\t\treturn 1\n\t\t} else {\n\t\t\treturn 2\n\t\t}\n\t}\n}\n", false},
 		{"params/duplicate", "func g(a int, a int) {\n}\n", false},
 		{"params/duplicate-types", "func g(a int, a string) {\n}\n", false},
 		{"params/distinct", "func g(a int, b int) {\n\tprint(a, b)\n}\ng(1, 2)\n", true},
